@@ -280,23 +280,27 @@ independent reader finds, under the names of the UFO 3 specification, exactly th
 norad's own parser arrives at on the same document (`Glif.parse_encode`: `parseGlif rd (encodeGlif f g) =
 loadObjectLibs (preG f nc g)`).  For every valid glyph (`Glif.ValidGlyph`, the glif builder's validity) whose note does
 not trim to nothing (recorded C02 guard); colours up to their three decimals (`nc`), scales within 2⁻⁵² of 1 and `-0`
-offsets normalised (`normT`), advance `±0`/subnormal as `0` — all inside `preG`. -/
+offsets normalised (`normT`), advance `±0`/subnormal as `0` — all inside `preG`.  `hne`: every contour has points — a
+contour without points is written as `<contour></contour>`; the independent reader reports it as an empty contour,
+norad's parser drops it (`keepContours` in `preG`), so the two readers agree exactly on glyphs without such contours. -/
 theorem norad_encoder_read_by_spec_reader {f : Fmt} {lx : Lex} {nc : Color → Color} {ok : Nat → Prop}
     (hc : LexCodec f lx nc ok) (showLib : Dict → String) (readLib : String → LibV)
     (hl : ∀ d, readLib (showLib d) = .dict d) {g : Glyph} (hv : ValidGlyph ok g)
-    (hnote : ∀ n, g.note = some n → (trimText n).isEmpty = false) :
+    (hnote : ∀ n, g.note = some n → (trimText n).isEmpty = false)
+    (hne : ∀ c, c ∈ g.contours → c.points ≠ []) :
     eventsOf readLib (encTree f showLib g) = encodeGlif f g ∧
     specRead lx (encTree f showLib g) = some (descGlyph showLib (preG f nc g)) :=
-  ⟨events_of_encTree f showLib readLib hl g, spec_reads_encTree hc showLib hv hnote⟩
+  ⟨events_of_encTree f showLib readLib hl g, spec_reads_encTree hc showLib hv hnote hne⟩
 
 /-- the same with norad's parser next to it: on what the encoder writes, the specification-level reader and norad's
 parser see the same glyph (before the object libs are moved out of the lib) -/
 theorem spec_reader_agrees_with_norad_parser {f : Fmt} {lx : Lex} {rd : Str → Option Nat} {nc : Color → Color}
     {ok : Nat → Prop} (hl : LexCodec f lx nc ok) (hr : Codec f rd nc ok) (showLib : Dict → String) {g : Glyph}
-    (hv : ValidGlyph ok g) (hnote : ∀ n, g.note = some n → (trimText n).isEmpty = false) :
+    (hv : ValidGlyph ok g) (hnote : ∀ n, g.note = some n → (trimText n).isEmpty = false)
+    (hne : ∀ c, c ∈ g.contours → c.points ≠ []) :
     parseGlif rd (encodeGlif f g) = loadObjectLibs (preG f nc g) ∧
     specRead lx (encTree f showLib g) = some (descGlyph showLib (preG f nc g)) :=
-  ⟨parse_encode hr hv, spec_reads_encTree hl showLib hv hnote⟩
+  ⟨parse_encode hr hv, spec_reads_encTree hl showLib hv hnote hne⟩
 
 /-- **norad's parser reads the specification-level writer**, element by element: the attribute parsers `parseGlif` is
 made of (`parseAnchor`, `parseGuideline`, `parsePoint`, `parseComponent`, `parseImage`, `parseAdvance`, `parseUnicode`,
@@ -436,6 +440,7 @@ example := norad_parser_reads_spec_writer parseCodec0 []
 -- the encoder theorem applies to the glif builder's sample glyph `g0` (its hypotheses are satisfiable)
 example : specRead lex0 (encTree F0 (fun _ => "lib") g0) = some (descGlyph (fun _ => "lib") (preG F0 nc0 g0)) :=
   spec_reads_encTree lexCodec0 (fun _ => "lib") valid_g0 (by intro n hn; cases hn)
+    (by intro c hc; simp [g0] at hc; subst hc; simp)
 
 end
 
